@@ -280,9 +280,27 @@ def main(argv=None):
     defect = []
     proved_units = {(r["file"], r["unit"]) for r in results}
     failing_units = {(o["_res"]["file"], o["_res"]["unit"]) for o in undis if o["_res"]}
+    unproved_units = {(r["file"], r["unit"]) for r in broken_units if r["status"] not in ("crash", "specerror")}
+    # a unit (or an inlined callee of it) outside the verifier's reach is not proved; if the native cross-check of its
+    # contract then fails on the REAL code with a concrete input, that input is a replayed violation of the contract
+    inlined_into = {}
+    for (file, qual), c in reg.contracts.items():
+        if getattr(c, "inline", False):
+            inlined_into.setdefault(file, set()).add(qual)
     for cf in cross_fail:
         j = cf["job"]
+        res = cf.get("result") or {}
         if (j["file"], j["unit"]) in failing_units:
+            continue
+        if (j["file"], j["unit"]) in unproved_units and res.get("failed") and "harness_error" not in res:
+            name = f"{pid}/{j['unit']}/native-contract-check"
+            path = os.path.join(ROOT, "replay", pid, hashlib.sha1((name + json.dumps(j.get("params"), default=str)).encode()).hexdigest()[:12] + ".json")
+            json.dump({"property": pid, "obligation": name, "clause": res.get("failed"), "status": "native-failure", "backend": "native",
+                       "model": {"params": j.get("params"), "self": j.get("self")}, "native_replay": res, "confirmed_on_real_code": True,
+                       "note": "the unit is outside the verifier's reach on this tree (tool limit); its contract fails on the real code for this input",
+                       "reproduce": f"cd {ROOT} && REDUINO_REPO={repo} python3-vt -m pyvc.driver {pid}"}, open(path, "w"), indent=1, default=str)
+            if not any(v[0]["name"] == name for v in violations):
+                violations.append(({"name": name, "where": str(res.get("failed"))[:200], "status": "sat"}, path, True))
             continue
         defect.append(cf)
 
